@@ -12,6 +12,8 @@ import (
 	"strings"
 	"sync"
 	"time"
+
+	"github.com/bobertlo/gmars"
 )
 
 func usage() {
@@ -53,6 +55,9 @@ func main() {
 type emitter struct {
 	w     *bufio.Writer
 	first bool
+	// warrior data shared by all goroutines of a concurrent job (kind 14): handed to
+	// AddWarrior as it is, by every goroutine
+	shared []*gmars.WarriorData
 }
 
 func (e *emitter) rec(vals ...int64) {
